@@ -76,11 +76,14 @@ def scan_for(kind, extent):
 
 def detectors(interpolated=False):
     """With interpolation the statement promises the window probes only; the annular detector (well inside the cutoff) is kept, the
-    flexible detector's outermost bins depend on the anti-aliasing bookkeeping of the window and are not compared."""
+    flexible detector's outermost bins depend on the anti-aliasing bookkeeping of the window and are not compared.
+    Without interpolation the detectors with default limits are included: their limits come from the anti-aliasing cutoff the waves
+    declare, which for a scattering matrix downsampled to that cutoff must still be the cutoff of the multislice grid (a fresh
+    detector per call: _match_waves stores the limit on the detector)."""
     import abtem
     if interpolated:
         return [abtem.AnnularDetector(inner=0.0, outer=12.0)]
-    return [abtem.AnnularDetector(inner=0.0, outer=12.0), abtem.FlexibleAnnularDetector(step_size=4.0)]
+    return [abtem.AnnularDetector(inner=0.0, outer=12.0), abtem.FlexibleAnnularDetector(step_size=4.0), abtem.PixelatedDetector(max_angle="cutoff")]
 
 
 # ------------------------------------------------------------------ the reference: multislice of the equivalent probe
@@ -314,6 +317,21 @@ def self_test(ctx: Ctx):
     ctx.notes["binding_selftest"] = {"good_accepted": 3, "rejected": [r[1] for r in res[3:]]}
 
 
+def select(cases, n):
+    """The first n cases of the shuffled list, after one case (the first in shuffled order) of every stratum
+    potential x downsample x batching x lazy x {uninterpolated, interpolated}: the code paths of the reduction differ along
+    exactly these, and a sample that misses one of them says nothing about it."""
+    core, rest, seen = [], [], set()
+    for c in cases:
+        key = (c["potential"], c["downsample"], c["batch_one"], c["lazy"], (c["f1"], c["f2"]) == (1, 1))
+        if key in seen:
+            rest.append(c)
+        else:
+            seen.add(key)
+            core.append(c)
+    return (core + rest)[:max(n, len(core))]
+
+
 IMPL_CFG = """SPECIFICATION Spec
 CONSTANTS
   MaxN = {n}
@@ -353,8 +371,8 @@ def run(ctx: Ctx):
             evs.append(window_event((n1, n1), (w1, w1), cs))
             ctx.case(("window", n1, w1, json.dumps(cs)), nontrivial=True)
     # reductions
-    nred = 70 if quick else 900
-    for j, c in enumerate(cases[:nred]):
+    nred = 110 if quick else 900
+    for j, c in enumerate(select(cases, nred)):
         evs.append(reduce_event(c, idx=j + ctx.seed))
         ctx.case(("reduce", json.dumps(c, sort_keys=True), j), nontrivial=c["aberrations"] != "none" or (c["f1"], c["f2"]) != (1, 1))
     ctx.exhaustive = False
